@@ -45,7 +45,10 @@ def cfg_for(new):
     if fam == "co":
         stack = []
         for a in json.loads(new.get("stack", "[]")):
-            stack.append(dict(k=a, n=0) if isinstance(a, str) else dict(k=a[0], n=a[1]))
+            if isinstance(a, str):
+                stack.append(dict(k=a, n=0))
+            else:
+                stack.append(dict(k=a[0], n=1000000 if a[1] in ("max", "big") else a[1]))
         c = dict(fam="co", cont=cont, n=n, feat="std" if std else "alloc", sub=True, rdy=True, stream=True, fallible=False,
                  group=False, never=new.get("never", []), x=-1, maxX=BIG, conts=[], stack=stack, term=new["term"],
                  limit=new.get("limit", 0), take=new.get("take", -1), nmaps=new.get("nmaps", 0))
